@@ -21,11 +21,30 @@ _FORMS = ['plu-sweeps-on-extracted-LU', 'plu-sweeps-on-compact-rest-1e300', 'plu
           'ldl-sweeps-on-extracted-LD', 'sweeps-on-user-built-factor', 'user-built-ldl-storage-holds-L0-D0',
           'plu-forms-diff-to-compact', 'ldl-forms-diff-to-compact', 'llt-forms-diff-to-compact']
 
+# the caller's rounding mode x the ISA as hidden inputs (seeded change C08-K: LU multipliers by reciprocal + FMA correction when FP_FAST_FMA is
+# defined, bit-identical to the division in round-to-nearest only): the clause groups that need no rounding argument - exact-failure classes,
+# exactly factorable classes judged with ==, shape, extraction - under FE_DOWNWARD / FE_TOWARDZERO / FE_UPWARD / FE_TONEAREST (-DVF_FENV_ROTATE,
+# see "configurations fenv-exact" in both harnesses), in the default ISA build and, where the CPU has it, in the -mfma build (FP_FAST_FMA and
+# FP_FAST_FMAF become defined; FP_FAST_FMAL never is on x86-64 - the x87 unit has no fused multiply-add -, so there is no long double -mfma variant)
+try:
+    _HAS_FMA = ' fma ' in open('/proc/cpuinfo').read()
+except OSError:
+    _HAS_FMA = False
+_FX = ['-DVF_FENV_ROTATE']
+_FENV = ([dict(name='fenv-exact', hflags=_FX, nworkers=4),
+          dict(name='fenv-exact-f32', real=4, harness=['h_linalg_fact_w.c'], hflags=_FX, nworkers=2),
+          dict(name='fenv-exact-f80', real=16, harness=['h_linalg_fact_w.c'], hflags=_FX, nworkers=2)] +
+         ([dict(name='fenv-exact-fma', cflags=['-mfma'], hflags=_FX, nworkers=4),
+           dict(name='fenv-exact-f32-fma', real=4, harness=['h_linalg_fact_w.c'], cflags=['-mfma'], hflags=_FX, nworkers=2)] if _HAS_FMA else []))
+_FENV_REQ = ['fenv-exact-failure-class-judged', 'fenv-exact-factorization-judged', 'fenv-shape-only-class-judged',
+             'w-fenv-exact-failure-class-judged', 'w-fenv-exact-factorization-judged', 'w-fenv-shape-only-kind-judged'] + \
+            [c + m for c in ('fenv-exact-failure-judged-', 'fenv-exact-factorization-judged-') for m in ('FE_DOWNWARD', 'FE_TOWARDZERO', 'FE_UPWARD', 'FE_TONEAREST')]
+
 SPEC = dict(
     harness=['h_linalg_fact.c'],
     # the default (double) build runs the full harness; the other two real widths run a compact type-generic companion
-    configs=lambda tier: [dict(name='f64'), dict(name='f64-clang', libcc='clang', nworkers=4, of=8), dict(name='f64-o2', libflavour='san-o2', libdrop=['-fno-strict-aliasing'], nworkers=4, of=8), dict(name='f32', real=4, harness=['h_linalg_fact_w.c']), dict(name='f80', real=16, harness=['h_linalg_fact_w.c'])],
-    parallel_configs=5,
+    configs=lambda tier: [dict(name='f64'), dict(name='f64-clang', libcc='clang', nworkers=4, of=8), dict(name='f64-o2', libflavour='san-o2', libdrop=['-fno-strict-aliasing'], nworkers=4, of=8), dict(name='f32', real=4, harness=['h_linalg_fact_w.c']), dict(name='f80', real=16, harness=['h_linalg_fact_w.c'])] + _FENV,
+    parallel_configs=5 + len(_FENV),
     level='exploration',
     rule='one case = one matrix of one structure class run through one family (a_real_plu / a_real_ldl / a_real_llt); every library call '
          'in it is one evaluation. On reported success: p is a permutation with parity == sign, every stored multiplier |l| <= 1, the '
@@ -78,9 +97,27 @@ SPEC = dict(
          '+-2^(MAX_EXP-8) / NaN (plu, llt) and on the generator\'s own L0 / U0 with zeros on the other side (plu, llt, exact kinds); (rounded) random full-mantissa matrices against the same componentwise bounds with u = A_REAL_EPSILON/2, c = 4, '
          'lndet within c*(n+2)*eps*sum|log|pivot||; (exactly singular) zeroed u_kk / d_k, lowered Cholesky pivot, zero column, 2^k-multiple '
          'rows, zero matrix must fail; (full range) permutation / diagonal / row-scaled triangular matrices with pivots 2^k, '
-         'A_REAL_MIN_EXP-1 <= k <= A_REAL_MAX_EXP-3, must succeed with factors == input, solve == x0, exact inverse; P, P_, L, U, D == stored.',
+         'A_REAL_MIN_EXP-1 <= k <= A_REAL_MAX_EXP-3, must succeed with factors == input, solve == x0, exact inverse; P, P_, L, U, D == stored. '
+         'Configurations fenv-exact (double, full harness), fenv-exact-f32 / -f80 (companion) and, where the CPU has FMA, fenv-exact-fma / fenv-exact-f32-fma '
+         '(library and harness with -mfma: FP_FAST_FMA / FP_FAST_FMAF defined): every case runs under one of FE_DOWNWARD / FE_TOWARDZERO / FE_UPWARD / FE_TONEAREST '
+         '(a function of seed and case number) and ONLY the clauses that need no rounding argument are judged: the exact-failure classes must report failure '
+         '(zero column / row / matrix / leading entry, duplicated and 2^k-multiple rows, integer L0 D0 L0^T with a zero in D0, integer L0 L0^T with a lowered pivot - '
+         'the vanishing of the pivot never depends on the rounding direction; seeded change C08-K is visible through the duplicated rows with a pivot that is not a power of two); the classes whose every intermediate is exactly representable must succeed with '
+         'stored factors == the exact factors (permutation / diagonal / upper triangular incl. xscale-exact: storage == row-permuted input; integer L0 D0 L0^T; '
+         'integer L0 L0^T; and, this configuration only, A = Q L0 U0 with multipliers k/4 and integer U0, p == the forced pivot order), b = A x0 with integer x0 '
+         'through lower / upper (plain, strided) and solve == x0, det == the integer determinant while <= 2^53, inv / inv_ == the exact inverse of a +-2^k '
+         'permutation matrix; on every other class without extreme scaling only p a permutation, sign == parity, |l| <= 1 (FE_TONEAREST / FE_TOWARDZERO only), pivots non-zero, Cholesky diagonal > 0; '
+         'everywhere extraction == stored, plu_apply, sgndet, guard cells, read-only arguments, the integer user-built sweeps. Every residual / determinant / lndet '
+         'bound is NOT judged there (counters fenv-skipped-inexact-clause / -class, w-fenv-skipped-inexact-clause); companion: kinds EXACT, FAIL, RANGE in full '
+         'except lndet and the n > 4 inverse bound, kind ROUNDED shape + extraction + sgndet only.'
+         ' DIVISORS OF EVERY ==-JUDGED FACTOR / SOLUTION / DETERMINANT / INVERSE CLAUSE ARE POWERS OF TWO (all configurations): the property does not fix how a quotient is '
+         'formed, and a * fl(1/u) is the exact quotient only when 1/u is representable. So the integer classes (also the must-fail ones built on them) use D0 in +-{1,2,4}, '
+         'diag(L0) in {1,2,4}, u_ii in +-{1,2,4} (companion RANGE kind: diagonal +-2^k), products are of integers / dyadics (exact in either association). The duplicated / '
+         '2^k-multiple rows are named by the property and must fail whatever the pivot (an implementation with fl(a*fl(1/a)) != 1 breaks that sentence); two such cases in three '
+         'additionally meet at a pivot +-2^K (rows 0 before column j, +-2^K there, 2^K > 4*2^j*max|A|). A library that forms every quotient of a_real_plu / ldl / llt and of all '
+         'sweeps as a * fl(1/u) is flagged in the default configurations by the duplicated-rows must-fail clause only (checked on a scratch copy).',
     exhaustive={'quick': None, 'thorough': None},
-    require=_W + _FORMS + ['guard-cells-intact', 'const-input-intact',
+    require=_W + _FORMS + _FENV_REQ + ['guard-cells-intact', 'const-input-intact',
              'exact-zero-pivot-reports-failure', 'exactly-factorable-reports-success',
              'plu-failure-reported', 'ldl-failure-reported', 'llt-failure-reported',
              'plu-p-is-permutation', 'plu-sign-equals-parity', 'plu-multipliers-le-1', 'plu-pivots-nonzero',
@@ -125,6 +162,13 @@ SPEC = dict(
         'the unit diagonal of the LU factor L implied (a_real_plu_solve itself passes the storage, whose diagonal holds U); routines documented for the '
         'compact storage are never given anything else in a judged clause',
         'a_real_plu_P_ is undocumented; it is taken to be the transpose (inverse permutation matrix) of a_real_plu_P',
+        'configurations fenv-exact*: the caller\'s rounding mode is taken to be part of the execution environment for the clauses that state no tolerance '
+        '(failure on an exactly vanishing pivot, shape of the factors) and for inputs on which no operation of the pinned algorithms rounds (an IEEE operation '
+        'whose exact result is representable returns it in every mode); the rounding-error bounds are stated for round-to-nearest and are not judged under the '
+        'other three modes. The == clauses on exact factors / solutions hold for division and for multiplication by the correctly rounded reciprocal alike '
+        '(every divisor a power of two, every product and partial sum an exactly representable integer or dyadic). Harness and library are compiled without '
+        '-frounding-math, as a user would; -ffp-contract=off also in the -mfma build, so only explicit fma calls and FP_FAST_FMA* arms differ there. '
+        'No long double -mfma configuration: FP_FAST_FMAL is never defined on x86-64',
     ],
     level_text='The refuting events are numerical (a factor entry, solution or inverse column outside the standard componentwise backward-error '
                'bound) and structural (invalid permutation, wrong parity, multiplier > 1, non-positive diagonal, success on an exactly '
@@ -143,5 +187,6 @@ SPEC = dict(
                '(float / long double builds: n > 12 and badly scaled non-trivial matrices not executed; a width-specific defect that only shows '
                'with underflowing multipliers or for n > 12 is not observed)',
     technique='structured/random matrix workload, quad-precision componentwise backward-error oracle, exact-by-construction failure classes, '
-              'guard cells + exact-size blocks under ASan+UBSan',
+              'guard cells + exact-size blocks under ASan+UBSan; exact-failure / exactly-factorable / shape clauses under the four rounding modes, '
+              'default ISA and -mfma (configurations fenv-exact*)',
 )
